@@ -3,7 +3,7 @@
 set -e
 cd "$(dirname "$0")"
 export CARGO_NET_OFFLINE=true
-python3 extract/extract.py /repo/src lean/Kanal/Generated.lean
+python3 extract/extract.py "${VERIF_REPO:-/repo}/src" lean/Kanal/Generated.lean
 (cd lean && lake build Kanal specgen traittable specexplore protocheck specfollow)
 (cd harness && cargo build --release --offline)
 echo "setup done"
